@@ -20,12 +20,12 @@ AdvanceS(S0, r) ==
         hm == HeadMove(a.S, a.S.above, a.S.order)
     IN [a.S EXCEPT !.above = hm.above \o [j \in 1..Len(a.log) |-> LogItem(a.log[j])], !.order = hm.order]
 
-(* no limiter, a spy terminal, no retargeting: the alphabet of ImplStep *)
+(* a spy terminal (with or without a refresh rate whose interval is a whole number of microseconds), no retargeting: the alphabet of ImplStep *)
 Supported(r) == r.cfg.w = W /\ r.cfg.h = H /\ ~r.cfg.multi /\ ~r.cfg.pty
-OpOK(r) == r.op \notin {"set_target", "burst", "fail_at", "set_tab_width"} /\ (r.op = "new" => (r.target = "spy" /\ r.hz = 0))
+OpOK(r) == r.op \notin {"set_target", "fail_at"} /\ (r.op = "new" => (r.target = "spy" \/ (r.target = "spy_hz" /\ LimExact(r.hz))))
 
 R0 == [recs |-> 0, hists |-> 0, conform |-> 0, skipped |-> 0, first |-> <<>>]
-D0 == [t |-> TInit(W, H), llc |-> 0, atEnd |-> FALSE]
+D0 == [t |-> TInit(W, H), llc |-> 0, atEnd |-> FALSE, lim |-> NoLim]
 ConfInit == /\ S = <<>> /\ hist = <<>> /\ nlog = 0 /\ done = FALSE /\ I = I0 /\ d = D0
             /\ i = 1 /\ T = <<>> /\ dead = TRUE /\ res = R0 /\ TLCSet(1, R0)
 ConfNext ==
